@@ -672,3 +672,27 @@ Definition sse_mu (s : sse) (b : bytes) : nat :=
 
 Definition sse_feed (maxl : Z) := feed sse (sse_step maxl) sse_mu.
 Definition sse_feed_all (maxl : Z) := feed_all sse (sse_step maxl) sse_mu.
+
+(* ------------------------------------------------------------------ *)
+(* a REUSED parser: Valet / Patron call makeParser() after every complete message and the same
+   Requestant / Respondent object parses the next message from the bytes left in the buffer.
+   A re-made parser starts from the initial state: nothing of the previous message survives
+   (parseMessage / parseHead / parseBody must reset or overwrite every field they read).
+   State = (parser state, completed messages so far). *)
+Definition stage_done (s : pst) : bool := match p_stage s with SDone => true | _ => false end.
+
+Definition sess_step (cf : cfg) (resp hr : bool) (st : pst * list pst) (b : bytes) : sres (pst * list pst) :=
+  match http_step cf false (fst st) b with
+  | Adv s' r => if stage_done s'
+                then Adv (init_pst resp hr, (snd st ++ [s'])%list) r
+                else Adv (s', snd st) r
+  | Wait => Wait
+  | Halt => Halt
+  end.
+
+Definition sess_rank (s : pst) : nat :=
+  match p_stage s with SDone | SFail _ => 0 | SStart _ => 1 | _ => 2 end%nat.
+Definition sess_mu (st : pst * list pst) (b : bytes) : nat := (3 * length b + sess_rank (fst st))%nat.
+Definition sess_feed (cf : cfg) (resp hr : bool) := feed (pst * list pst) (sess_step cf resp hr) sess_mu.
+Definition sess_feed_all (cf : cfg) (resp hr : bool) := feed_all (pst * list pst) (sess_step cf resp hr) sess_mu.
+Definition sess_init (resp hr : bool) : (pst * list pst) * bytes := ((init_pst resp hr, []), []).
